@@ -152,7 +152,10 @@ def gen_key(rng, used):
             if key not in used:
                 return key
             continue
-        base = rng.choice(('k', 'key', 'clé', 'кл', 'a.b', 'K', ''))
+        # ('clé' composed and decomposed: equal after Unicode normalisation,
+        # different keys)
+        base = rng.choice(('k', 'key', 'cl\u00e9', 'cle\u0301', 'кл', 'a.b',
+                           'K', ''))
         key = '%s%d' % (base, rng.randrange(0, 30))
         if r < 0.25:
             key = key.encode('utf-8')
@@ -186,7 +189,10 @@ def generate(seed, idx, tier):
         initial[len(initial)] = [enc(k), enc(v)]
         model[as_bytes(k)] = as_bytes(v)
     updates = []
-    for _ in range(rng.randrange(1, 7)):
+    cat_append = target == 'data' and rng.random() < 0.3
+    wipe = not cat_append and rng.random() < 0.05
+    wipe_at = rng.randrange(0, 3)
+    for _ in range(rng.randrange(1, 7) + (2 if wipe else 0)):
         upd = []
         seen = set()
         before_model = dict(model)
@@ -240,6 +246,18 @@ def generate(seed, idx, tier):
                 seen.add(as_bytes(key))
         u = {'kv': upd, 'flag': rng.choice((None, None, 'explicit'))}
         r = rng.random()
+        if wipe and len(updates) == wipe_at:
+            # remove every key there is - the library's own `pandas` entry
+            # included - so that the stored list is present but empty; keys
+            # added later must still arrive
+            upd[:] = [[enc(spell(kb, rng)), None]
+                      for kb in sorted(before_model)]
+            upd.append([enc(rng.choice(('pandas', b'pandas'))), None])
+            rng.shuffle(upd)
+            model.clear()
+            u['wipe'] = True
+            updates.append(u)
+            continue
         if r < 0.06:
             # an update the library must refuse (a value or key that is
             # neither text, bytes nor None) in the middle of valid entries:
@@ -262,7 +280,7 @@ def generate(seed, idx, tier):
     return {'prop': PROP, 'seed': seed, 'idx': idx, 'tier': tier,
             'target': target, 'initial': list(initial.values()),
             'updates': updates, 'nrows': rng.randrange(1, 20),
-            'cat_append': target == 'data' and rng.random() < 0.3,
+            'cat_append': cat_append,
             'local': rng.random() < 0.1,
             'fseed': rng.randrange(2 ** 31),
             'codec': rng.choice((None, 'SNAPPY', 'GZIP'))}
@@ -396,6 +414,7 @@ def _execute(case, fs, res, cnt, probes, bump, violation, fw,
     if not D.is_local(fs):
         fw.open = fs.builtin_open
     try:
+        wiped = False
         for ui, upd in enumerate(case['updates']):
             before = bytes(fs.files[path])
             rb = parse(before, is_meta)
@@ -410,6 +429,8 @@ def _execute(case, fs, res, cnt, probes, bump, violation, fw,
                     model.pop(kb, None)
                 else:
                     model[kb] = as_bytes(dec(v))
+            others0 = {p: bytes(b) for p, b in fs.files.items()
+                       if p != path}
             fs.hits = []
             fs.floors = {path: rb['start']}
             seq0 = fs.seq
@@ -460,6 +481,17 @@ def _execute(case, fs, res, cnt, probes, bump, violation, fw,
             res['steps'] += fs.seq - seq0
             after = bytes(fs.files[path])
             ra = parse(after, is_meta)
+            # the update names one file: every other file of the dataset is
+            # what it was
+            others1 = {p: bytes(b) for p, b in fs.files.items() if p != path}
+            if others1 != others0:
+                ch = sorted(p for p in set(others0) | set(others1)
+                            if others0.get(p) != others1.get(p))
+                violation('C16/another-file-changed',
+                          'update %d of %s changed %s' % (
+                              ui, path.rsplit('/', 1)[-1],
+                              [c.rsplit('/', 1)[-1] for c in ch[:3]]), ui)
+                break
             # (4) nothing below the old footer
             if fs.hits:
                 hit = fs.hits[0]
@@ -495,13 +527,25 @@ def _execute(case, fs, res, cnt, probes, bump, violation, fw,
                           'created_by differ from before' % ui, ui)
                 break
             # (1) keys verbatim: raw list and through the API
-            err = kv_mismatch(ra['fmd'], model)
+            wiped = wiped or bool(upd.get('wipe'))
+            err = kv_mismatch(ra['fmd'], model, wiped)
             if err:
                 violation('C16/keys-differ-from-model', 'update %d %s: %s'
                           % (ui, _short(upd), err), ui)
                 break
-            rsv_b = {k: v for k, v in M.kv(rb['fmd']) if k in RESERVED}
-            rsv_a = {k: v for k, v in M.kv(ra['fmd']) if k in RESERVED}
+            named = {as_bytes(dec(k)) for k, v in upd['kv']
+                     if k[0] != 'x'}
+            rsv_b = {k: v for k, v in M.kv(rb['fmd'])
+                     if k in RESERVED and k not in named}
+            rsv_a = {k: v for k, v in M.kv(ra['fmd'])
+                     if k in RESERVED and k not in named}
+            if upd.get('wipe'):
+                bump(probes, 'every_key_removed')
+                if M.kv(ra['fmd']):
+                    violation('C16/keys-differ-from-model',
+                              'update %d removed every key, the file still '
+                              'holds %r' % (ui, M.kv(ra['fmd'])[:3]), ui)
+                    break
             if rsv_a != rsv_b:
                 violation('C16/unnamed-key-changed',
                           'update %d: the %s entry, which the update did not '
@@ -554,7 +598,7 @@ def _short(upd):
     return out
 
 
-def kv_mismatch(fmd, model):
+def kv_mismatch(fmd, model, pandas_removed=False):
     raw = M.kv(fmd)
     keys = [k for k, _ in raw]
     if len(set(keys)) != len(keys):
@@ -567,7 +611,7 @@ def kv_mismatch(fmd, model):
         diff = sorted(k for k in set(got) & set(model) if got[k] != model[k])
         return 'missing %r, unexpected %r, wrong value for %r' % (
             missing[:3], extra[:3], diff[:3])
-    if not any(k == b'pandas' for k in keys):
+    if not pandas_removed and not any(k == b'pandas' for k in keys):
         return 'pandas entry disappeared'
     return None
 
